@@ -58,6 +58,11 @@ impl<W, E> FramedWrite<W, E> {
     fn send<M: S5Wire>(&mut self, item: Box<M>, Tracked(vlog): Tracked<&mut S5Log>) -> (r: Result<()>)
         ensures r is Ok ==> final(vlog).evs == old(vlog).evs.push(S5Ev::Wrote(item.wire())),
     { unimplemented!() }
+    /// SinkExt::feed: the same message goes out, at the next flush at the latest; it is logged where it is queued
+    #[verifier::external_body]
+    fn feed<M: S5Wire>(&mut self, item: Box<M>, Tracked(vlog): Tracked<&mut S5Log>) -> (r: Result<()>)
+        ensures r is Ok ==> final(vlog).evs == old(vlog).evs.push(S5Ev::Wrote(item.wire())),
+    { unimplemented!() }
 }
 
 //@@ octo-squirrel/src/protocol/socks5/codec.rs:20-20  struct Socks5ClientEncoder  sha=c335d30ec0286755
